@@ -397,7 +397,10 @@ func (e *episode) judge(run *hx.Run, what string, a eth2wrap.ActiveValidators, c
 	}
 	blame := func(sig, descr string) {
 		if e.mutSinceFetch {
-			run.Violate("valcache:shared_map_mutated", what+": after a caller wrote into the maps it was handed: "+descr)
+			// not a violation of C15 (no caller in /repo writes into these maps; the property does not quantify over hostile
+			// callers of the validator cache): counted as an observation, the model follows the code as it is (taint)
+			_ = descr
+			run.Count("observed:shared_map_mutated")
 		} else {
 			run.Violate(sig, what+": "+descr)
 		}
@@ -477,7 +480,9 @@ func (e *episode) checkQuery(run *hx.Run) {
 
 // ---------- operations ----------
 
-func ctxTag(tag string) context.Context { return context.WithValue(context.Background(), tagKey{}, tag) }
+func ctxTag(tag string) context.Context {
+	return context.WithValue(context.Background(), tagKey{}, tag)
+}
 
 func (e *episode) doHead(run *hx.Run) string {
 	before := e.snap()
@@ -775,7 +780,8 @@ func (e *episode) doSched(run *hx.Run, slot uint64) string {
 		blame := func(sig, descr string) {
 			switch {
 			case e.mutSinceFetch:
-				run.Violate("valcache:shared_map_mutated", fmt.Sprintf("scheduler, slot %d, after a caller wrote into the maps it was handed: %s", slot, descr))
+				_ = descr
+				run.Count("observed:shared_map_mutated")
 			case stale != "":
 			default:
 				run.Violate(sig, fmt.Sprintf("scheduler, slot %d: %s", slot, descr))
